@@ -12,7 +12,7 @@ SPEC = {
     "required_theorems": [
         # Props/C18Gen.lean: the translated allocation functions ARE the model's
         "C18_gen_addFreeDarts2", "C18_gen_addFreeDart2", "C18_gen_addFreeDarts3", "C18_gen_addFreeDart3", "C18_gen_buckets",
-        "C18_gen_insertFreeDart", "C18_gen_removeFreeDartTx", "C18_gen_removeFreeDart", "C18_gen_isFree",
+        "C18_gen_insertFreeDart", "C18_gen_removeFreeDartTx", "C18_gen_removeFreeDart", "C18_gen_isFree", "C18_gen_attr_loops",
         "C18_add_fresh", "C18_insert_fresh", "C18_remove_refuses_iff", "C18_remove_twice_in_one_transaction", "C18_orbit3_excludes_removed", "C18_D10_reused_slot_keeps_stale_value", "C18_orbit_excludes_removed"],
     "trusted_base": [
         "Lean 4.33 kernel; axioms propext, Classical.choice, Quot.sound only",
